@@ -282,7 +282,7 @@ func (r *run) proj(n *hx.Node) obj {
 	}
 	return obj{"view": int(n.VS.View()), "hqc": r.idOfHash(hqc.BlockHash()), "hqcv": int(hqc.View()), "htc": int(n.VS.HighTC().View()),
 		"lv": int(n.Voter.VerifLastVotedView()), "lock": lock, "committed": r.idOfHash(n.VS.CommittedBlock().Hash()),
-		"cview": int(n.VS.CommittedBlock().View())}
+		"cview": int(n.VS.CommittedBlock().View()), "tv": n.TimerView}
 }
 
 // fetchFrom answers a block fetch of replica by from the other replicas' stores (one answer per block and step) and logs it.
@@ -318,6 +318,7 @@ func (r *run) step(kind string, n *hx.Node, ev obj, f func()) {
 	o0 := len(n.Outcomes)
 	r.fetchLog, r.fetchMemo = [][2]any{}, nil
 	n.StarvedViews = nil
+	n.DurLog = nil
 	panicked := ""
 	func() {
 		defer func() {
@@ -341,6 +342,7 @@ func (r *run) step(kind string, n *hx.Node, ev obj, f func()) {
 		"signed": r.classifySigned(n, s0), "out": out, "exec": n.Executed[e0:], "abort": n.Aborted[a0:], "panic": panicked, "healed": r.healed,
 		"fetch": r.fetchLog, "starved": append([]int{}, n.StarvedViews...), "outcomes": n.Outcomes[o0:], "count": int(n.CIO.CmdCount()), "digest": fmt.Sprintf("%x", n.CIO.Hash().Sum(nil)[:6])}
 	line["new"] = r.newBlk
+	line["dlog"] = append([]string{}, n.DurLog...)
 	r.newBlk = nil
 	r.o.emit(line)
 	r.steps++
@@ -894,7 +896,13 @@ func (r *run) adversary() {
 			for _, x := range by {
 				r.node(x).BC.Store(b)
 			}
-			return hotstuff.ProposeMsg{ID: id, Block: b}
+			pm := hotstuff.ProposeMsg{ID: id, Block: b}
+			if r.rng.Intn(3) == 0 {
+				// the optional aggregate QC of a proposal is decoded for every ruleset: an empty one (no certificates, no signature)
+				// rides along -- it must not buy the block anything
+				pm.AggregateQC = &hotstuff.AggregateQC{}
+			}
+			return pm
 		}
 		var msgs []envelope
 		p1 := mk(1)
